@@ -25,6 +25,7 @@ type c02Case struct {
 	Validity                                     uint64
 	KeyIDs                                       map[string]string
 	NoPubKeyDir                                  bool
+	KeyDir                                       string `json:",omitempty"` // layout of the registered-key directory ("" = <name>.pub)
 }
 
 var c02SeenKeys = map[string]string{}
@@ -54,7 +55,12 @@ var c02Extensions = map[string]string{"permit-pty": "", "permit-X11-forwarding":
 
 func c02Run(c *ev.Ctx, k c02Case) {
 	c.Eval()
-	e := newEnv(envOpt{KeyDir: "pub", LogName: k.LogName, Validity: k.Validity, KeyIDs: k.KeyIDs, Behaviour: "honest", AgentHasKey: true, NoPubKeyDir: k.NoPubKeyDir})
+	c.Crumb(k)
+	kd := k.KeyDir
+	if kd == "" {
+		kd = "pub"
+	}
+	e := newEnv(envOpt{KeyDir: kd, LogName: k.LogName, Validity: k.Validity, KeyIDs: k.KeyIDs, Behaviour: "honest", AgentHasKey: true, NoPubKeyDir: k.NoPubKeyDir})
 	defer e.close()
 	if e.hErr != nil {
 		c.Outcome("handler-config-rejected")
@@ -172,7 +178,7 @@ func c02Run(c *ev.Ctx, k c02Case) {
 
 func checkC02(c *ev.Ctx) {
 	defer cleanupScratch()
-	c.Rule("real gensign.Run + regular.Handler, honest agent, recording CA; the signing request received by the CA is compared with a reference record built from server-side inputs: strings {plain, JSON metacharacters, <>&, non-ASCII, 200 chars, empty, literal JSON/HTML escape texts (\\u0026, \\\\u003c, &lt;, \\n), U+2028/2029, control characters} for login/user/host/IP/transaction id varied one field at a time and jointly x CA algorithm{0,1,2,3,4,99}; handler configurations: validity{1,3600,43200,315360000,2^32+43200} x every non-colliding subset (size<=3; thorough <=4) of key_identifiers keys {rsa,RSA,Ecdsa,ed25519,default,unknown,1,3,99} x algorithm; two consecutive requests per case. non-trivial = request signed and compared; distinct by case")
+	c.Rule("real gensign.Run + regular.Handler, honest agent, recording CA; the signing request received by the CA is compared with a reference record built from server-side inputs: strings {plain, JSON metacharacters, <>&, non-ASCII, 200 chars, empty, literal JSON/HTML escape texts (\\u0026, \\\\u003c, &lt;, \\n), U+2028/2029, control characters} for login/user/host/IP/transaction id varied one field at a time and jointly; 10 login names that interact with the key-file lookup ('.pub' suffixes, dots, case) x directory layouts {<name>.pub, bare <name>, both} x CA algorithm{0,1,2,3,4,99}; handler configurations: validity{1,3600,43200,315360000,2^32+43200} x every non-colliding subset (size<=3; thorough <=4) of key_identifiers keys {rsa,RSA,Ecdsa,ed25519,default,unknown,1,3,99} x algorithm; two consecutive requests per case. non-trivial = request signed and compared; distinct by case")
 	c.Assume("key_identifiers names are normalised case-insensitively or numerically (reference table in the harness)")
 	if c.ReplayCase != nil {
 		var k c02Case
@@ -270,5 +276,15 @@ func checkC02(c *ev.Ctx) {
 	nk := base
 	nk.NoPubKeyDir = true
 	c02Run(c, nk)
+	// login names that interact with the key-file lookup (suffixes, dots, case), under every directory layout in which the
+	// user can still authenticate: the principal is the login name, whatever file held the key
+	for _, ln := range []string{"alice", "alice.pub", "alice.pub.pub", "al.ice", "alice.PUB", "alice.", ".alice", "pub", "alice.pubx", "Alice"} {
+		for _, layout := range []string{"pub", "bare", "both"} {
+			k := base
+			k.LogName, k.KeyDir, k.ReqUser = ln, layout, "someone-else"
+			c02Run(c, k)
+			n++
+		}
+	}
 	c.Set("cases", n+1)
 }
